@@ -345,6 +345,22 @@ impl MintBuilder {
         NativeScripts::from(native_scripts)
     }
 
+    /// Key hashes that have to sign because of the minting scripts: the signers declared with a
+    /// script source, or every key hash of a native script given by value without such a declaration
+    pub(crate) fn get_required_signers(&self) -> Ed25519KeyHashes {
+        let mut set = Ed25519KeyHashes::new();
+        for script_mint in self.mints.values() {
+            let signers = match script_mint {
+                ScriptMint::Native(native_mints) => native_mints.script.required_signers(),
+                ScriptMint::Plutus(plutus_mints) => plutus_mints.script.get_required_signers(),
+            };
+            if let Some(signers) = signers {
+                set.extend_move(signers);
+            }
+        }
+        set
+    }
+
     pub fn get_plutus_witnesses(&self) -> PlutusWitnesses {
         let mut plutus_witnesses = Vec::new();
         let tag = RedeemerTag::new_mint();
